@@ -52,6 +52,16 @@ Lemma skel_ResetTimestamp_ok : skel_ResetTimestamp =
 Proof. reflexivity. Qed.
 
 (* updateAllocator: Check() before UpdateTSO; a failed update resets the allocator group  [model: LUpdRead requires valid] *)
+(* loadTimestamp: the persisted windows are read with ONE unlimited prefix read of the root path (no paging whose
+   continuation could lose keys) and the maximum over the keys ending in "timestamp" is returned *)
+Lemma skel_loadTimestamp_ok : skel_loadTimestamp =
+  [Call "EtcdKVGet(t.client, t.rootPath, clientv3.WithPrefix())"; IfE "err != nil" [Ret] []; Assign "maxTSWindow" ":= typeutil.ZeroTime"; ForE [Call "HasSuffix"; IfE "!strings.HasSuffix(key, timestampKey)" [Cont] []; Call "ParseTimestamp"; IfE "err != nil" [Cont] []; Call "SubRealTimeByWallClock"; IfE "typeutil.SubRealTimeByWallClock(tsWindow, maxTSWindow) > 0" [Assign "maxTSWindow" "= tsWindow"] []]; Ret].
+Proof. reflexivity. Qed.
+
+Lemma skel_EtcdKVGet_ok : skel_EtcdKVGet =
+  [Call "Get(ctx, key, opts)"; IfE "err != nil" [Ret] []; Ret].
+Proof. reflexivity. Qed.
+
 Lemma skel_updateAllocator_ok : skel_updateAllocator =
   [SwitchE [[Call "Reset"; Ret]; []]; Call "Check"; IfE "!ag.leadership.Check()" [Ret] []; Call "UpdateTSO"; IfE "err != nil" [Call "ResetAllocatorGroup"; Ret] []].
 Proof. reflexivity. Qed.
